@@ -117,6 +117,9 @@ _BIN = {ast.Add: lambda a, b: a + b, ast.Sub: lambda a, b: a - b, ast.Mult: lamb
         ast.FloorDiv: lambda a, b: a // b, ast.Mod: lambda a, b: a % b, ast.BitAnd: lambda a, b: a & b,
         ast.BitOr: lambda a, b: a | b, ast.BitXor: lambda a, b: a ^ b, ast.LShift: lambda a, b: a << b,
         ast.RShift: lambda a, b: a >> b, ast.Pow: lambda a, b: a ** b, ast.Div: lambda a, b: a / b}
+import operator as _op
+_IBIN = {ast.Add: _op.iadd, ast.Sub: _op.isub, ast.Mult: _op.imul, ast.FloorDiv: _op.ifloordiv, ast.Mod: _op.imod, ast.BitAnd: _op.iand, ast.BitOr: _op.ior,
+         ast.BitXor: _op.ixor, ast.LShift: _op.ilshift, ast.RShift: _op.irshift, ast.Pow: _op.ipow, ast.Div: _op.itruediv}
 _CMP = {ast.Eq: lambda a, b: a == b, ast.NotEq: lambda a, b: a != b, ast.Lt: lambda a, b: a < b,
         ast.LtE: lambda a, b: a <= b, ast.Gt: lambda a, b: a > b, ast.GtE: lambda a, b: a >= b,
         ast.In: lambda a, b: a in b, ast.NotIn: lambda a, b: a not in b, ast.Is: lambda a, b: a is b, ast.IsNot: lambda a, b: a is not b}
@@ -234,6 +237,10 @@ class Lit:
             if isinstance(n.func, ast.Name) and n.func.id == 'namedtuple' and n.func.id not in self.env and len(n.args) == 2 and not n.keywords:
                 import collections
                 return collections.namedtuple(*self._seq(n.args))      # standard-library primitive on literal arguments
+            if isinstance(n.func, ast.Attribute) and isinstance(n.func.value, ast.Name) and n.func.value.id == 'bisect' and 'bisect' not in self.env \
+               and n.func.attr in ('bisect', 'bisect_left', 'bisect_right', 'insort', 'insort_left', 'insort_right'):
+                import bisect as _bisect
+                return getattr(_bisect, n.func.attr)(*self._seq(n.args), **self._kw(n.keywords))      # standard-library primitive
             if isinstance(n.func, ast.Name) and n.func.id == 'defaultdict' and n.func.id not in self.env and n.args and not n.keywords:
                 import collections
                 if isinstance(n.args[0], ast.Name) and n.args[0].id in ('list', 'int', 'dict', 'set', 'str') and n.args[0].id not in self.env:
@@ -432,7 +439,7 @@ class ModuleFold:
                         self.stmt(s)
         elif isinstance(st, ast.AugAssign):
             cur = self.lit().ev(st.target)
-            v = _BIN[type(st.op)](cur, self.lit().ev(st.value))
+            v = _IBIN[type(st.op)](cur, self.lit().ev(st.value))        # in-place operator semantics (list += iterable extends)
             self.store(st.target, v)
         elif isinstance(st, ast.For):
             broke = False
